@@ -32,7 +32,7 @@ def main():
     try:
         for pid in props:
             for md in sorted(glob.glob(os.path.join(out_dir, pid, 'm*'))):
-                name = "%s-%s" % (pid, os.path.basename(md))
+                name = "%s%s-%s" % (os.environ.get('SEED_PREFIX', ''), pid, os.path.basename(md))
                 patch, demo = os.path.join(md, 'patch.diff'), os.path.join(md, 'demo.py')
                 if not (os.path.exists(patch) and os.path.exists(demo)):
                     summary.append((name, 'incomplete', '')); continue
